@@ -6,10 +6,65 @@ Both public parse entry points are driven over (i) every token sequence up to a 
 robustness corpus (repository texts, mutations, random UTF-8, token soup, deep nesting).  Hooks turn a
 non-terminating grammar loop into an attributable panic.  A stride sample of the recorded parse
 observations (tree rows, diagnostics) is validated by TLC against TreeTrace.tla / TreeShape.tla.
+
+Grammar machine spec (spec/pgrammar/Grammar.tla): every function of grammar.rs / items.rs / expressions.rs /
+atom.rs / params.rs transcribed over the Parser/Marker API.  TLC (MCGrammar) visits EVERY token sequence of nine
+families (expression, precedence, operator, declaration, control-flow, definition, call, miscellaneous alphabets
+and the full 91-kind alphabet) up to a length, proves C01's clauses on the model in every state (no failed
+assertion / unreachable, no loop iteration without progress, all tokens consumed, one balanced tree after
+event::process, events <= 64 * (tokens + 1)) and exports every state; the harness runs the REAL parser on the same
+oq3_parser::Input and compares the raw event lists (kinds, forward parents, glued tokens, error messages): a
+difference is model drift, a panic or an exceeded work bound of the real parser is a violation.  Long sequences
+come from TLC simulation of the same spec.
 """
 import os, sys
 sys.path.insert(0, os.path.dirname(os.path.abspath(__file__)))
 from parsecommon import *
+
+
+def replay_model_cases(c, gz, label):
+    import gzip, shutil
+    plain = os.path.join(c.work, f"mcg_{label}.ndjson"); of = os.path.join(c.work, f"mcg_{label}_out.json")
+    with gzip.open(gz, "rb") as fi, open(plain, "wb") as fo:
+        shutil.copyfileobj(fi, fo)
+    p = run_harness(["gram-model-cases", plain, of], timeout=3000)
+    os.remove(plain)
+    if p.returncode != 0:
+        c.tool_error("gram-model-cases failed: " + p.stderr[-1500:])
+    d = json.load(open(of))
+    nd = 0
+    for f in d["failures"]:
+        if f["kind"] in ("events_mismatch", "model_bad"):
+            nd += 1
+            if len(c.drift) < 4:
+                c.drift.append({k: f.get(k) for k in ("kind", "toks", "at", "model", "real", "model_bad")})
+        else:
+            c.report({"kind": "model_case_" + f["kind"], "what": f["what"], "tokens": " ".join(t["k"] + ("'" if t["j"] else "") for t in f["toks"]),
+                      "site": f.get("site") or "", "panic": f.get("panic"), "model_predicts": f.get("model_bad")})
+    return d, nd
+
+
+def grammar_model(c):
+    cfg = "MCGrammar_quick.cfg" if c.quick else "MCGrammar_thorough.cfg"
+    r, gz, n = run_tlc_stream("pgrammar", "MCGrammar", cfg, "CASE", workers=8, timeout=6000, lib="events", cache_key="v1")
+    if not r.ok:
+        c.tool_error(f"MCGrammar {cfg}: {r.violated or r.error_text} {r.raw_tail[-600:]}")
+    d, nd = replay_model_cases(c, gz, "bfs")
+    # long sequences: seeded simulation of the same spec
+    nsim, depth = (300, 14) if c.quick else (6000, 16)
+    s, sgz, sn = run_tlc_stream("pgrammar", "MCGrammar", "MCGrammar_sim.cfg", "CASE", workers=1, timeout=3000, lib="events", cache_key="sim",
+                                simulate=nsim, depth=depth, seed=c.seed)
+    if not s.ok:
+        c.tool_error(f"MCGrammar simulation: {s.violated or s.error_text} {s.raw_tail[-600:]}")
+    d2, nd2 = replay_model_cases(c, sgz, "sim")
+    if nd + nd2:
+        c.notes.append(f"model drift: on {nd + nd2} token sequences the real parser's raw events are not those of the grammar machine spec (Grammar.tla); C01's clauses are evaluated on the real run")
+    c.cov["grammar_machine_spec"] = {"cfg": cfg, "states": r.distinct, "sequences_replayed": d["cases"], "families": d["families"], "node_kinds_seen": len(d["node_kinds"]),
+                                     "simulated_sequences_replayed": d2["cases"], "drift": nd + nd2,
+                                     "invariant": "C01_Model: ReturnsNormally /\\ ConsumesAll /\\ MarkersDischarged (one balanced tree after event::process) /\\ LinearWork /\\ tokens consumed exactly once"}
+    c.cov["states"] = c.cov.get("states", 0) + r.distinct
+    c.cov["traces_validated_against_impl"] = c.cov.get("traces_validated_against_impl", 0) + d["cases"] + d2["cases"]
+    c.assumptions.append("grammar machine spec: nine token families, sequences <= 2-5 tokens (quick) / <= 2-6 (thorough) with every jointness pattern, plus simulated sequences of up to 14-16 tokens")
 
 
 def main():
@@ -18,6 +73,7 @@ def main():
     c.assumptions += ["bounds (DESIGN 5/C01): random inputs <= 4 KiB, nesting <= 64, token sequences <= 5 (thorough) / <= 4 (quick) as Input, <= 4 / <= 3 as text",
                       "rowan and the Unicode tables are trusted", "linear work is measured as parser events <= 64 * (tokens + 1)"]
     run(c, {"C01"})
+    grammar_model(c)
     c.finish()
 
 
